@@ -306,6 +306,11 @@ impl IsoDate {
         day: u8,
         overflow: ArithmeticOverflow,
     ) -> TemporalResult<Self> {
+        // A year outside the ISO year limits can never be part of a valid date, and the
+        // day arithmetic below is only defined around that range.
+        if !(-271_821..=275_760).contains(&year) {
+            return Err(TemporalError::range().with_message("year is not within the ISO limits."));
+        }
         match overflow {
             ArithmeticOverflow::Constrain => {
                 let month = month.clamp(1, 12);
